@@ -37,6 +37,13 @@ def one_call(fname, aseed, rng, invalid=None):
     elif invalid == 'nan' and args and isinstance(args[0], np.ndarray) and args[0].dtype.kind == 'f':
         args[0] = args[0].copy()
         args[0][0, -1] = np.nan
+    elif invalid == 'zeros' and args and isinstance(args[0], np.ndarray) and args[0].ndim == 2:
+        args[0] = np.zeros_like(args[0])  # the empty network
+    elif invalid == 'isolated' and args and isinstance(args[0], np.ndarray) and args[0].ndim == 2 and args[0].shape[0] == args[0].shape[1]:
+        args[0] = args[0].copy()
+        x = rnd.randrange(len(args[0]))
+        args[0][x, :] = 0
+        args[0][:, x] = 0  # a node without any connection (and without a self-connection)
     elif invalid == 'labels' and len(args) > 1 and isinstance(args[1], np.ndarray) and args[1].ndim == 1:
         args[1] = args[1][:-1].copy()  # label vector of the wrong length
     snaps = CM.snapshot(args, kwargs)
@@ -150,7 +157,7 @@ class _Call(object):
         invalid = None
         if rnd.random() < 0.25:
             # NaN entries are deliberately not injected: several deterministic routines loop forever on them (not C13's concern)
-            invalid = rnd.choice(('shape', 'asym', 'labels'))
+            invalid = rnd.choice(('shape', 'asym', 'labels', 'zeros', 'isolated'))  # degenerate input takes the early-exit and error paths
         pol = rewire.pick_policy(rnd) if fname in SEEDED else {'name': 'none'}
         return {'scn': self.ID, 'routine': fname, 'aseed': rnd.randrange(2 ** 31), 'seed': sub, 'policy': pol, 'budget': 20000, 'trace': None, 'invalid': invalid}
 
